@@ -221,7 +221,12 @@ def check(s):
     from .util import fields_initialised
     fields_initialised(s, "C13.3", [c for m_ in sorted(P.modules.values(), key=lambda m__: m__.name) if m_.name.startswith(("lerax.wrapper", "lerax.compatibility")) for c in m_.classes.values()],
                        necessary_for="every wrapper can be constructed around an environment")
-    for r_, n in (("C13.1", 95), ("C13.2", 14), ("C13.3", 11), ("C13.4", 4), ("C13.5", 15), ("C13.6", 15), ("C13.7", 14)):
+    # C13.8 the adapters drive the adapted environment through AbstractEnvLike.step / reset: the composition rules of C01 (transition taken
+    # once, lazy reset) are part of "the adapter reproduces the trajectory" - a step that calls initial() eagerly resets a wrapped
+    # Gymnasium simulator on every step
+    from .C01 import check_step
+    check_step(s, lambda i: "C13.8")
+    for r_, n in (("C13.1", 95), ("C13.2", 14), ("C13.3", 11), ("C13.4", 4), ("C13.5", 15), ("C13.6", 15), ("C13.7", 14), ("C13.8", 10)):
         s.floor(r_, n)
 
 
